@@ -1,6 +1,9 @@
 package main
 
 import (
+	"go/types"
+	"strings"
+
 	"golang.org/x/tools/go/ssa"
 )
 
@@ -18,6 +21,7 @@ func init() {
 func runC27(w *World, r *Report) {
 	r.Rule("R-C27-1", "every nil-error return in a decrypt call tree returns text derived from AEAD.Open's plaintext (or a tree function's result) and is unreachable once that call's nil-error edge is removed", 6)
 	r.Rule("R-C27-2", "every decrypt call tree contains a call of cipher.AEAD.Open reachable from its entry point", 2)
+	r.Rule("R-C27-3", "key provenance: the key given to aes.NewCipher in a decrypt tree is, on every path (all phi edges, all stored values, all call sites), computed from the caller's passphrase parameter; a key from any other source (a cache, a constant) lets a different passphrase decrypt", 2)
 
 	for _, rel := range []string{"internal/util", "internal/cli/settings"} {
 		p := w.pkg(rel)
@@ -121,6 +125,8 @@ func runC27(w *World, r *Report) {
 			}
 		}
 
+		c27KeyProvenance(w, r, order, tree)
+
 		if hasOpen {
 			r.Discharge("R-C27-2", rel+".Decrypt|AEAD.Open", w.pos(entry.Pos()), "tree of "+itoa(len(order))+" functions reaches cipher.AEAD.Open")
 		} else {
@@ -157,4 +163,149 @@ func nameOfCall(c *ssa.Call) string {
 
 func itoa(n int) string {
 	return sprintInt(n)
+}
+
+// c27KeyProvenance: R-C27-3.
+func c27KeyProvenance(w *World, r *Report, order []*ssa.Function, tree map[*ssa.Function]bool) {
+	// call sites of tree functions, by callee
+	sites := map[*ssa.Function][]*ssa.Call{}
+
+	for _, fn := range order {
+		allInstrs(fn, func(in ssa.Instruction) {
+			if c, ok := in.(*ssa.Call); ok {
+				if cf := calleeFunction(c.Common()); cf != nil && tree[cf] {
+					sites[cf] = append(sites[cf], c)
+				}
+			}
+		})
+	}
+
+	isPassParam := func(p *ssa.Parameter) bool {
+		n := strings.ToLower(p.Name())
+
+		return strings.Contains(n, "pass") && types.Identical(p.Type().Underlying(), types.Typ[types.String])
+	}
+
+	var allDerive func(v ssa.Value, fn *ssa.Function, depth int, seen map[ssa.Value]bool) (bool, string)
+
+	allDerive = func(v ssa.Value, fn *ssa.Function, depth int, seen map[ssa.Value]bool) (bool, string) {
+		v = stripValue(v)
+		if seen[v] {
+			return true, "" // cycle through a phi: decided by the other edges
+		}
+
+		seen[v] = true
+
+		if depth > 8 {
+			return false, "derivation too deep"
+		}
+
+		switch x := v.(type) {
+		case *ssa.Parameter:
+			if isPassParam(x) {
+				return true, ""
+			}
+
+			// a key parameter of a tree function: every call site must supply a derived key
+			idx := -1
+
+			for i, p := range x.Parent().Params {
+				if p == x {
+					idx = i
+				}
+			}
+
+			cs := sites[x.Parent()]
+			if idx < 0 || len(cs) == 0 {
+				return false, "parameter " + x.Name() + " of " + fnKey(x.Parent()) + " is not the passphrase and has no in-tree caller"
+			}
+
+			for _, c := range cs {
+				if ok, why := allDerive(c.Call.Args[idx], c.Parent(), depth+1, map[ssa.Value]bool{}); !ok {
+					return false, why
+				}
+			}
+
+			return true, ""
+		case *ssa.Phi:
+			for _, e := range x.Edges {
+				if ok, why := allDerive(e, fn, depth, seen); !ok {
+					return false, why
+				}
+			}
+
+			return true, ""
+		case *ssa.Call:
+			// a function of the passphrase: some argument derives from it
+			var last string
+
+			for _, a := range callArgs(x.Common()) {
+				if ok, why := allDerive(a, fn, depth+1, seen); ok {
+					return true, ""
+				} else {
+					last = why
+				}
+			}
+
+			if last == "" {
+				last = "result of " + nameOfCall(x) + " does not depend on the passphrase"
+			}
+
+			return false, last
+		case *ssa.Convert:
+			return allDerive(x.X, fn, depth, seen)
+		case *ssa.Slice:
+			return allDerive(x.X, fn, depth, seen)
+		case *ssa.Extract:
+			return allDerive(x.Tuple, fn, depth, seen)
+		case *ssa.TypeAssert:
+			return allDerive(x.X, fn, depth, seen)
+		case *ssa.UnOp:
+			if vals, ok := storedValues(x.X); ok {
+				if len(vals) == 0 {
+					return false, "uninitialised local"
+				}
+
+				for _, sv := range vals {
+					if ok, why := allDerive(sv, fn, depth, seen); !ok {
+						return false, why
+					}
+				}
+
+				return true, ""
+			}
+
+			return false, "loaded from " + valueName(x.X) + " (not computed from the passphrase)"
+		case *ssa.Alloc:
+			vals, _ := storedValues(x)
+			for _, sv := range vals {
+				if ok, why := allDerive(sv, fn, depth, seen); !ok {
+					return false, why
+				}
+			}
+
+			return len(vals) > 0, "local never assigned"
+		case *ssa.Const:
+			return false, "constant key"
+		}
+
+		return false, valueName(v) + " is not computed from the passphrase"
+	}
+
+	for _, fn := range order {
+		allInstrs(fn, func(in ssa.Instruction) {
+			c, ok := in.(*ssa.Call)
+			if !ok || callID(c.Common()) != "crypto/aes.NewCipher" {
+				return
+			}
+
+			key := fnKey(fn) + "|aes.NewCipher-key"
+
+			if ok, why := allDerive(c.Call.Args[0], fn, 0, map[ssa.Value]bool{}); ok {
+				r.Discharge("R-C27-3", key, w.pos(c.Pos()), "key is a function of the passphrase on every path")
+			} else {
+				r.Violate("R-C27-3", key, w.pos(c.Pos()), "the cipher key can come from something other than the caller's passphrase ("+why+"): decryption may then succeed for a different passphrase")
+			}
+		})
+	}
 }
